@@ -2,12 +2,14 @@
 from __future__ import annotations
 
 import collections
+import dataclasses
 import json
 import random
 import types as pytypes
 import warnings
 
 from .. import tlc, valuestream as vs
+from .c02 import json_safe
 from ..core import Ctx, Outcome, Violation
 from ..terms import clear_typelib_caches, project
 from ..typeterms import CONCRETE, values
@@ -56,6 +58,10 @@ def decompose_unmarshal(T, x, defs, env):
             items = [(a, b) for a, b in x.items() if a in ftypes]
         elif isinstance(x, list) and x and all(isinstance(p, (list, tuple)) and len(p) == 2 for p in x):
             items = [(p[0], p[1]) for p in x if p[0] in ftypes]
+        elif hasattr(x, "_asdict"):
+            items = [(a, b) for a, b in x._asdict().items() if a in ftypes]
+        elif dataclasses.is_dataclass(x) and not isinstance(x, type):
+            items = [(f.name, getattr(x, f.name)) for f in dataclasses.fields(x) if f.name in ftypes]
         elif hasattr(x, "__dict__") and not isinstance(x, type):
             items = [(a, b) for a, b in vars(x).items() if a in ftypes]
         else:
@@ -100,7 +106,9 @@ def source_shapes(w, rng):
     out = [("wire", w)]
     try:
         js = json.dumps(w)
-        if json.loads(js) == w:          # JSON text stands for the wire value only if it reads back as it (str keys)
+        # JSON text stands for the wire value only if it reads back as it (str keys) -- with every JSON decoder: integers
+        # beyond 64 bits are outside the default decoder's domain (C02's quantifier says so)
+        if json.loads(js) == w and json_safe(w):
             out.append(("json", js))
             out.append(("jsonbytes", js.encode()))
     except (TypeError, ValueError):
@@ -158,7 +166,17 @@ def collect(ctx: Ctx, profile: str):
                 if whole["k"] != "ok":
                     continue
                 # ---- unmarshal side, every documented source shape of the wire value
-                for sname, x in source_shapes(wv, rng):
+                shapes = source_shapes(wv, rng)
+                ri, replaced = vs.raw_instance(T, wv, env, defs)
+                if replaced:
+                    # class positions as instances of exactly those classes, members still raw
+                    shapes.append(("same_class_instance", ri))
+                st = strip(T)
+                if j == 0 and st["k"] == "coll" and st["c"] in ("set", "frozenset") and strip(st["a"])["k"] == "prim" \
+                        and strip(st["a"])["n"] in ("str", "bytes", "int", "float", "Decimal"):
+                    # raw members that are equal but of different classes: each is converted on its own before the set is built
+                    shapes.append(("equal_raw_members", [1, True, 1.0, "1", 0, False, 0.0, "0"]))
+                for sname, x in shapes:
                     gen = isinstance(x, tuple) and len(x) == 3 and x[0] == "lazy"
                     xin = x[2]() if gen else x
                     whole_u, _ = vs.out_of(typelib.unmarshal, ann, xin)
